@@ -119,7 +119,7 @@ def verdict(P, J, run, strict_instances=True, tol=1e-9):
         return v
     ans = run["answers"]
     if J["mustReject"]:
-        v.append(("answered-negative-cycle", "answered %s although in every possible world a query/evidence atom "
+        v.append(("answered-negative-cycle", "answered %s although in some possible world a query/evidence atom "
                   "is undefined in the well-founded model" % ans))
         return v
     if not J["mustAnswer"]:
